@@ -143,6 +143,19 @@ def run_case(case):
             elif style == "input_out_ns":
                 prefix, stem = "myns", "outfile1"
                 args = ["-i", fname, "-o", stem, "-n", prefix]
+            elif style == "input_out":  # -o without -n: the namespace still defaults to the stem of the UFL file
+                stem = "outfile2"
+                args = ["-i", fname, "-o", stem]
+            elif style == "input_ns":  # -n without -o: the files are still named after the UFL file
+                prefix = "ns2"
+                args = ["-i", fname, "-n", prefix]
+            elif style == "input_only":
+                args = ["-i", fname]
+            elif style == "dir_out":
+                outdir = os.path.join(work, "gen")
+                os.makedirs(outdir)
+                stem = "o3"
+                args = ["-d", "gen", "-i", fname, "-o", stem]
             elif style == "dir":
                 outdir = os.path.join(work, "gen")
                 os.makedirs(outdir)
@@ -391,6 +404,10 @@ def cases_for(tier, s):
             R.append({"kind": "numba", "demo": d})
     cells = [("triangle", 2, "0.1, 0.2", "0.5, 0.25"), ("tetrahedron", 3, "0.1, 0.2, 0.3", "0.25, 0.25, 0.25"), ("quadrilateral", 2, "0.1, 0.9", "0.5, 0.5"), ("interval", 1, "0.3", "0.8")]
     styles = ["positional", "input_out_ns", "dir"]
+    # every way of naming the output: (-i) x (-o) x (-n) x (-d); one small file each, always in the pool
+    for si, style in enumerate(["input_out", "input_ns", "input_only", "dir_out"]):
+        R.append({"kind": "file", "template": list(UFL_FILES)[si % len(UFL_FILES)], "params": {"cell": "triangle", "deg": 1, "gdim": 2, "p0": "0.1, 0.2", "p1": "0.5, 0.25"},
+                  "style": style, "options": {}, "filename": ["mass.py", "My.Forms 2.py"][si % 2]})
     n = 0
     for tmpl in UFL_FILES:
         for ci, (cell, gdim, p0, p1) in enumerate(cells if tier == "thorough" else cells[:2]):
